@@ -8,7 +8,7 @@ From Coq Require Import List String ZArith NArith Bool Lia Permutation Sorted.
 From PintV Require Import Common.Bytes Common.Sorting Gen.Tables Model.Severity Model.SummarySort.
 From PintV Require Import Proofs.C11_order Proofs.C11_perm Proofs.C11_monitor.
 From PintV Require Proofs.C11_stable_sort.
-From PintV Require Import Model.ScanLTS Model.JobEnum Proofs.C11_lts Proofs.C11_jobs.
+From PintV Require Import Model.ScanLTS Model.JobEnum Proofs.C11_lts Proofs.C11_lts_order Proofs.C11_jobs.
 From PintV Require Gen.C11.
 From PintV Require Import Model.ScanSkeleton.
 Import ListNotations.
@@ -59,6 +59,15 @@ Theorem C11_protocol_terminates : forall (J A : Type) (run : J -> list A) cap n 
 Proof. intros J A run cap n js k s N C R M. exact (maximal_runs_deliver J A run cap n js k s N C R M). Qed.
 Print Assumptions C11_protocol_terminates.
 
+(** ... and the arrival stream is an INTERLEAVING of the per-job lists: the reports of one job arrive in the order its
+    check produced them (workers send in order, channels are FIFO).  [interleaving ls l] (Proofs/C11_lts_order.v): l is
+    built by repeatedly appending the next element of one of the lists ls. *)
+Theorem C11_protocol_preserves_job_order : forall (J A : Type) (run : J -> list A) cap n js s,
+  (1 <= n)%nat -> reachable J A run cap (init J A n js) s -> done J A s = true ->
+  interleaving (map run js) (summary J A s).
+Proof. intros. now apply (arrival_is_interleaving J A run cap n). Qed.
+Print Assumptions C11_protocol_preserves_job_order.
+
 (** The transition system is the protocol of the CURRENT source: the concurrency skeleton of checkRules and
     scanWorker extracted from the Go AST this run (Gen/C11.v, translator/ext_C11.go) is the one Model/ScanLTS.v was
     written from (a dropped close, a non-blocking send, an extra receive, a second consumer ... change it). *)
@@ -88,6 +97,23 @@ Proof.
   rewrite (runs_agree jobs n1 n2 c1 c2 k1 k2 s1 s2 N1 N2 C1 C2 Hh1 Hh2 R1 M1 R2 M2). auto.
 Qed.
 Print Assumptions C11_runs_agree.
+
+(** The exit status agrees between any two complete runs with NO hypothesis. *)
+Theorem C11_runs_agree_exit : forall (jobs : list job) n1 n2 cap1 cap2 k1 k2 s1 s2 failOn minSev,
+  (1 <= n1)%nat -> (1 <= n2)%nat -> (1 <= cap1)%nat -> (1 <= cap2)%nat ->
+  steps job report run_job cap1 (init job report n1 jobs) k1 s1 -> (forall s', ~ step job report run_job cap1 s1 s') ->
+  steps job report run_job cap2 (init job report n2 jobs) k2 s2 -> (forall s', ~ step job report run_job cap2 s2 s') ->
+  exit_status_lint failOn minSev (summary job report s1) = exit_status_lint failOn minSev (summary job report s2) /\
+  exit_status_ci failOn (summary job report s1) = exit_status_ci failOn (summary job report s2).
+Proof.
+  intros jobs n1 n2 c1 c2 k1 k2 s1 s2 f m N1 N2 C1 C2 R1 M1 R2 M2.
+  destruct (maximal_runs_deliver job report run_job c1 n1 jobs k1 s1 N1 C1 R1 M1) as (_ & P1 & _).
+  destruct (maximal_runs_deliver job report run_job c2 n2 jobs k2 s2 N2 C2 R2 M2) as (_ & P2 & _).
+  assert (P : Permutation (summary job report s2) (summary job report s1))
+    by (eapply Permutation_trans; [exact P2|apply Permutation_sym; exact P1]).
+  split; [now apply exit_lint_perm|now apply exit_ci_perm].
+Qed.
+Print Assumptions C11_runs_agree_exit.
 
 (** H2 is a consequence of two invariants of the job enumeration: (J-loc) problems reported for the same file and
     line range come from entries that agree on symlink target, owner and rule identity; (J-diag) among problems
